@@ -177,6 +177,8 @@ def _(u):
     vw = beta * v0 + (1 - beta) * mean_r
     u.prove("warmup.value", _scalar(v) == alpha * vb + (1 - alpha) * vw, tags=("C20", "C16"))
     u.prove("warmup.loss", _scalar(l) == alpha * lb + (1 - alpha) * 0, tags=("C20", "C16"))
+    # frame: mixing must not disturb the state of the exponential baseline (its moving average is the recurrence value, whatever alpha)
+    u.prove("warmup.ema-state-is-the-recurrence-value", _scalar(warm._attrs["v"]) == ite(alpha == 1, v0, vw), tags=("C20",))   # (alpha = 1: the exponential baseline is not evaluated any more)
     u.prove("warmup.alpha0-is-warmup-only", IMPL(alpha == 0, _scalar(v) == vw), tags=("C20",))
     u.prove("warmup.alpha1-is-inner-only", IMPL(alpha == 1, _scalar(v) == vb), tags=("C20",))
     u.canary("warmup.swapped", _scalar(v) == (1 - alpha) * vb + alpha * vw)
